@@ -36,7 +36,7 @@ var c15Faults = []string{"none", "no-listener", "accept-close", "read-close", "r
 
 func c15Gen(t *rapid.T) c15Plan {
 	p := c15Plan{}
-	p.RespTimeoutMs = rapid.SampledFrom([]int{100, 500, 3000}).Draw(t, "resp-timeout")
+	p.RespTimeoutMs = rapid.SampledFrom([]int{100, 500, 3000, 30000, 120000}).Draw(t, "resp-timeout") // 30 s is the CLI default
 	p.BufReq = rapid.IntRange(0, 3).Draw(t, "buf-req") == 0
 	p.BufResp = rapid.IntRange(0, 3).Draw(t, "buf-resp") == 0
 	p.ErrPages = rapid.IntRange(0, 2).Draw(t, "err-pages")
@@ -114,12 +114,12 @@ func c15Run(t *testing.T, p c15Plan) (res vfResult) {
 		to.ResponseTimeout = vfMs(p.RespTimeoutMs)
 		to.BufferRequests, to.BufferResponses, to.MaxMemoryBufferSize = p.BufReq, p.BufResp, 64
 		opts := vfOpts{ErrPages: p.ErrPages}.serviceOptions(vfSvcSpec{Name: "svc"}, "")
-		if err := r.DeployService("svc", []string{"raw0:80"}, opts, to, 5*time.Second, time.Second); err != nil {
+		if err := vfDeploy(r, "svc", []string{"raw0:80"}, opts, to, 5*time.Second, time.Second); err != nil {
 			res.failf("setup-failed", "deploy: %v", err)
 			return
 		}
 		synctest.Wait()
-		f := w.front(NewServer(&Config{HttpPort: 80, HttpsPort: 443}, r).buildHandler(), "front:80")
+		f := w.front(r, "front:80")
 		timeout := vfMs(p.RespTimeoutMs)
 		interesting := false
 		if p.Burst > 0 {
@@ -284,12 +284,12 @@ func c15Run(t *testing.T, p c15Plan) (res vfResult) {
 		}
 		synctest.Wait()
 		t0 := w.now()
-		pc := w.runCmd(func() error { return r.PauseService("svc", 10*time.Second, time.Second) })
+		pc := w.runCmd(func() error { return vfPause(r, "svc", 10*time.Second, time.Second) })
 		if pc.Err != nil || pc.Panicked != "" || w.now() != t0 {
 			res.failf("drain-waits", "pause after the faults took %v (err=%v panic=%q), want 0: a failed request was left in flight", w.now()-t0, pc.Err, pc.Panicked)
 			return
 		}
-		r.ResumeService("svc")
+		vfResume(r, "svc")
 		if files := w.spillFiles(); len(files) != 0 {
 			res.failf("spill-left", "spill files remain: %v", files)
 			return
